@@ -42,7 +42,7 @@ func init() {
 			"(D3) ImportAccountKeys is called on the restore path with argument 0 / 1 looked up under the very names under which the exporter wrote result 0 / 1 of ExportAccountKeysForBackup, its error rejects, the post-process call's error rejects and every success return of RestoreAccountExport lies behind the post-process phase. " +
 			"(D4) every entry name or prefix the exporter writes is accepted (same text, same exact/prefix mode) by a built-in restore handler that plays the matching role (key file, DAG entry, heads record), and a key file is stored under the name it was matched by. " +
 			"(D5) the export contains both keys, entries and a heads record; the entry list is drawn from the whole log (GetEntries/Values, not the heads) of both the metadata and the message store; each entry file carries RawData() of the node fetched by the CID that names the file; every GroupHeadsExport field the restorer reads is written by the exporter, and each head list is loaded into the kind of store it was taken from. " +
-			"(D6) in the functions that read or write the archive every error result is tested and its failing side reaches only error returns (io.EOF, when tested explicitly, ends the read loop), and the callers between ServiceExportData and the archive writers enforce the writers' errors. " +
+			"(D6) in the functions that read or write the archive every error result is tested and its failing side reaches only error returns (io.EOF, when tested explicitly, ends the read loop); the error returned through the handler table is tested on every path out of the call before the next handler, the next entry or a success return — or, where it is skipped for unhandled entries only, no built-in handler reports a failure as (false, err); and the callers between ServiceExportData and the archive writers enforce the writers' errors. " +
 			"(D8) a built-in handler returns 'handled' without error only behind its effect (key bytes stored, node added to the DAG, heads handed to the store loader). " +
 			"(D7) behind SecretStore.ImportAccountKeys every keystore Put lies behind a keystore Has phase whose 'exists' side reaches only error returns, and every error result on that path rejects (an existing account or an undecodable/missing key blob fails the import before anything is written). " +
 			"Not decided: that go-orbit-db's replicator/Load rebuilds an equal log and index from the restored blocks and heads (dependency), byte equality beyond 'the raw block of that CID' (cbornode.Decode re-serialises canonically), the guards inside the secret store (C11), snapshot consistency of an export racing with appends, errors that setHeadsForGroup only logs (advisory note).",
@@ -1511,6 +1511,69 @@ func c20RejectOnFailure(fn *ssa.Function, v ssa.Value) a3Result {
 	return a3Result{OK: true, Tested: true, Why: "failing side reaches only error returns"}
 }
 
+// c20UntestedEscapes: where control can get from call without passing a test of its error
+// verdict ev (edges in cut are not followed): back to the call itself (next iteration: the
+// error value is overwritten) or to a return that is not an error return. Returning ev itself
+// counts as handing the error on.
+func c20UntestedEscapes(call *ssa.Call, ev ssa.Value, cut []edge) []string {
+	fn := call.Parent()
+	tested := map[*ssa.BasicBlock]bool{}
+	for _, ifi := range edgesOfVerdict(ev).Ifs {
+		tested[ifi.Block()] = true
+	}
+	cutm := map[edge]bool{}
+	for _, e := range cut {
+		cutm[e] = true
+	}
+	start := call.Block()
+	if tested[start] {
+		return nil
+	}
+	var out []string
+	seen := map[*ssa.BasicBlock]bool{}
+	var stack []*ssa.BasicBlock
+	push := func(from, to *ssa.BasicBlock) {
+		if cutm[edge{from, to}] {
+			return
+		}
+		if to == start {
+			out = append(out, "the next handler call")
+			return
+		}
+		if !seen[to] {
+			seen[to] = true
+			stack = append(stack, to)
+		}
+	}
+	for _, s := range start.Succs {
+		push(start, s)
+	}
+	idx := errResultIndex(fn.Signature)
+	for len(stack) > 0 {
+		b := stack[len(stack)-1]
+		stack = stack[:len(stack)-1]
+		if tested[b] {
+			continue
+		}
+		if len(b.Instrs) > 0 {
+			if ret, ok := b.Instrs[len(b.Instrs)-1].(*ssa.Return); ok && b != fn.Recover {
+				res := c20RetResults(ret)
+				if idx >= 0 && idx < len(res) && res[idx] == ev {
+					continue
+				}
+				if idx < 0 || idx >= len(res) || !definitelyNonNilErr(res[idx], b, 0) {
+					out = append(out, "a success return")
+				}
+				continue
+			}
+		}
+		for _, s := range b.Succs {
+			push(b, s)
+		}
+	}
+	return c20Uniq(out)
+}
+
 // c20RetResults: retResults, additionally looking through a named result that is captured by
 // a closure (heap cell) when no closure assigns it: store; rundefers; load; return.
 func c20RetResults(r *ssa.Return) []ssa.Value {
@@ -2576,6 +2639,82 @@ func runC20(c *Ctx) {
 				}
 			}
 		}
+	}
+	// the dispatch of the handlers: the error a handler returns must be looked at on every path
+	// out of the call — or, when it is only looked at for handled entries, no built-in handler
+	// may report a failure as (false, err)
+	nDispatch := 0
+	for _, df := range c20StaticClosure(restore, 1) {
+		if df.Parent() != nil && df.Parent() != restore {
+			continue
+		}
+		for _, b := range df.Blocks {
+			for _, in := range b.Instrs {
+				call, ok := in.(*ssa.Call)
+				if !ok || call.Common().IsInvoke() || staticCallee(call.Common()) != nil {
+					continue
+				}
+				base, f, ok := c20FieldRead(call.Common().Value)
+				if !ok || f.Name() != "Handler" || !c20IsNamed(base.Type(), c20Root, "RestoreAccountHandler") {
+					continue
+				}
+				nDispatch++
+				c.analysed(df)
+				construct := fnName(df) + "+Handler.error-on-every-path"
+				ev := errVerdict(call)
+				if ev == nil {
+					c.fail("D6", construct, posOf(call), "the error result of the handler call is discarded")
+					continue
+				}
+				escapes := c20UntestedEscapes(call, ev, nil)
+				if len(escapes) == 0 {
+					c.ok("D6", construct, posOf(call), "every path out of the handler call tests its error before the next entry, the next handler or a success return")
+					continue
+				}
+				hv := boolVerdict(call)
+				var skipEdges []edge
+				if hv != nil {
+					skipEdges = edgesOfVerdict(hv).Reject
+				}
+				if hv == nil || len(skipEdges) == 0 || len(c20UntestedEscapes(call, ev, skipEdges)) > 0 {
+					c.fail("D6", construct, posOf(call), "a path leaves the handler call without testing its error (reaches %s): a handler failure (CID mismatch, duplicate key file, undecodable record) is dropped and the restore goes on", strings.Join(escapes, ", "))
+					continue
+				}
+				// the error is only ignored when handled == false: sibling agreement with the handlers
+				var offenders []string
+				for _, h := range handlers {
+					if h.Field != "Handler" {
+						continue
+					}
+					for _, ret := range returnsOf(h.Fn) {
+						res := c20RetResults(ret)
+						idx := errResultIndex(h.Fn.Signature)
+						if idx < 0 || idx >= len(res) || len(res) < 2 {
+							continue
+						}
+						if isNilConst(res[idx]) {
+							continue
+						}
+						if bv, isC := constBool(res[0]); isC && bv {
+							continue
+						}
+						if !definitelyNonNilErr(res[idx], ret.Block(), 0) {
+							// may be nil: only a problem if it may also be non-nil with handled=false;
+							// a plain propagation (handled, err) of a callee is not judged here
+							continue
+						}
+						offenders = append(offenders, fmt.Sprintf("%s at %s", fnName(h.Fn), c.pos(posOf(ret))))
+					}
+				}
+				sort.Strings(offenders)
+				c.check(len(offenders) == 0, "D6", construct, posOf(call),
+					"the error is skipped only for unhandled entries, and no built-in handler reports a failure as (false, err)",
+					"the dispatch loop ignores the handler's error when handled is false, but "+strings.Join(offenders, "; ")+" returns (false, error): that failure (e.g. a duplicated key file) is dropped and the archive is accepted")
+			}
+		}
+	}
+	if nDispatch == 0 {
+		c.undecided("D6", fnName(restore)+"+Handler.error-on-every-path", restore.Pos(), "no call through RestoreAccountHandler.Handler found in RestoreAccountExport or its direct helpers")
 	}
 	seen6 := map[*ssa.Function]bool{}
 	sites := 0
